@@ -308,7 +308,8 @@ def cond_chain(prefix, n, idx):
     return '(' + s + '%s%d)' % (prefix, n - 1)
 
 
-def prelude_c(L, K, objsz_macro=True):
+def prelude_c(L, K, objsz_macro=True, light=False):
+    LG = 0 if light else L
     g = ['#include <stddef.h>', '#include <stdint.h>',
          '#define L %dul' % L, '#define K %dul' % K,
          'size_t w_sizeof(void); size_t w_length(const void*); char w_char_at(const void*, size_t);',
@@ -318,13 +319,13 @@ def prelude_c(L, K, objsz_macro=True):
          '/* the last buffer byte is only ever written as terminator: part of the invariant (established by the member',
          '   initialiser, preserved by every method -- checked as postcondition) so that pre-states are reachable ones */',
          '#define WF(p) (w_length(p) <= L && w_char_at(p, w_length(p)) == 0 && w_char_at(p, L) == 0)',
-         '#define GHOSTS size_t g_len' + ''.join(', char g%d' % i for i in range(L)),
-         '#define GHOST_ARGS g_len' + ''.join(', g%d' % i for i in range(L)),
-         '#define TIE(p) (w_length(p) == g_len' + ''.join(' && w_char_at(p,%d) == g%d' % (i, i) for i in range(L)) + ')',
-         '#define OLD(i) ' + cond_chain('g', L, 'i'),
+         '#define GHOSTS size_t g_len' + ''.join(', char g%d' % i for i in range(LG)),
+         '#define GHOST_ARGS g_len' + ''.join(', g%d' % i for i in range(LG)),
+         '#define TIE(p) (w_length(p) == g_len' + ''.join(' && w_char_at(p,%d) == g%d' % (i, i) for i in range(LG)) + ')',
+         '#define OLD(i) ' + cond_chain('g', LG, 'i'),
          '/* "no NUL stored": old content NUL-free */',
-         '#define OLD_NOZ (1' + ''.join(' && (%d >= g_len || g%d != 0)' % (i, i) for i in range(L)) + ')',
-         '#define NEW_NOZ(p) (1' + ''.join(' && (%d >= w_length(p) || w_char_at(p,%d) != 0)' % (i, i) for i in range(L)) + ')',
+         '#define OLD_NOZ (1' + ''.join(' && (%d >= g_len || g%d != 0)' % (i, i) for i in range(LG)) + ')',
+         '#define NEW_NOZ(p) (1' + ''.join(' && (%d >= w_length(p) || w_char_at(p,%d) != 0)' % (i, i) for i in range(LG)) + ')',
          '#define SRC(name,j) SRC_##name(j)',
          '#define R __CPROVER_return_value',
          '#define CANARY __CPROVER_assert(0, "CV_CANARY")']
@@ -335,7 +336,8 @@ def src_ghost_decl(name, K):
     return ''.join(', char %s_%d' % (name, j) for j in range(K))
 
 
-def contract_text(m, L, K, c11, extra_req=()):
+def contract_text(m, L, K, c11, extra_req=(), light=False):
+    LG = 0 if light else L
     """The C contract function + harness for one method."""
     params = ['void* self']
     ghosts = []          # extra ghost params (source contents, lengths)
@@ -376,29 +378,29 @@ def contract_text(m, L, K, c11, extra_req=()):
         elif kind == 'd':
             params.append('char* ' + name); hdecl.append('char* %s;' % name); hargs.append(name); wargs.append(name)
             req.append('__CPROVER_is_fresh(%s, %s)' % (name, m.blen))
-            ghosts += ['char %s_%d' % (name, j) for j in range(L)]
-            hdecl += ['char %s_%d;' % (name, j) for j in range(L)]
-            for j in range(L):
+            ghosts += ['char %s_%d' % (name, j) for j in range(LG)]
+            hdecl += ['char %s_%d;' % (name, j) for j in range(LG)]
+            for j in range(LG):
                 req.append('(%d >= (%s) || %s[%d] == %s_%d)' % (j, m.blen, name, j, name, j))
-            defs.append('#define SRC_%s(j) %s' % (name, cond_chain(name + '_', L, 'j')))
+            defs.append('#define SRC_%s(j) %s' % (name, cond_chain(name + '_', LG, 'j')))
         elif kind == 'F':
             params.append('void* ' + name); hdecl.append('void* %s;' % name); hargs.append(name); wargs.append(name)
             req.append('__CPROVER_is_fresh(%s, OBJSZ) && WF(%s)' % (name, name))
-            noz += ['(%d >= %s_n || %s_%d != 0)' % (j, name, name, j) for j in range(L)]
-            ghosts += ['size_t %s_n' % name] + ['char %s_%d' % (name, j) for j in range(L)]
-            hdecl += ['size_t %s_n;' % name] + ['char %s_%d;' % (name, j) for j in range(L)]
-            req.append('w_length(%s) == %s_n' % (name, name) + ''.join(' && w_char_at(%s,%d) == %s_%d' % (name, j, name, j) for j in range(L)))
-            defs.append('#define SRC_%s(j) %s' % (name, cond_chain(name + '_', L, 'j')))
+            noz += ['(%d >= %s_n || %s_%d != 0)' % (j, name, name, j) for j in range(LG)]
+            ghosts += ['size_t %s_n' % name] + ['char %s_%d' % (name, j) for j in range(LG)]
+            hdecl += ['size_t %s_n;' % name] + ['char %s_%d;' % (name, j) for j in range(LG)]
+            req.append('w_length(%s) == %s_n' % (name, name) + ''.join(' && w_char_at(%s,%d) == %s_%d' % (name, j, name, j) for j in range(LG)))
+            defs.append('#define SRC_%s(j) %s' % (name, cond_chain(name + '_', LG, 'j')))
     if m.ret == 'str':
         params.append('char* out'); hdecl.append('char* out;'); hargs.append('out'); wargs += ['out', 'L']
         req.append('__CPROVER_is_fresh(out, L)')
     if m.ret == 'cT':
         params.append('int* thrown'); hdecl.append('int* thrown;'); hargs.append('thrown'); wargs.append('thrown')
         req.append('__CPROVER_is_fresh(thrown, sizeof(int))')
-    gl = ['size_t g_len'] + ['char g%d' % i for i in range(L)]
-    hdecl += ['size_t g_len;'] + ['char g%d;' % i for i in range(L)]
+    gl = ['size_t g_len'] + ['char g%d' % i for i in range(LG)]
+    hdecl += ['size_t g_len;'] + ['char g%d;' % i for i in range(LG)]
     allp = params + gl + ghosts
-    hcall = hargs + ['g_len'] + ['g%d' % i for i in range(L)] + [g.split()[-1] for g in ghosts]
+    hcall = hargs + ['g_len'] + ['g%d' % i for i in range(LG)] + [g.split()[-1] for g in ghosts]
     rt = {'r': 'int', 'v': 'void', 'z': 'size_t', 'i': 'int', 'B': 'int', 'c': 'char', 'str': 'size_t', 'cT': 'char'}[m.ret]
     o = list(defs)
     o.append('%s cw_%s(%s)' % (rt, m.id, ', '.join(allp)))
@@ -435,8 +437,9 @@ def contract_text(m, L, K, c11, extra_req=()):
     for cl in m.ens10:
         o.append('__CPROVER_ensures(%s)' % cl)
     if m.mut:
-        o.append('__CPROVER_ensures(!(OLD_NOZ%s) || NEW_NOZ(self))  /* no NUL stored => length is the C-string length */'
-                 % ''.join(' && ' + z for z in noz))
+        if not light:
+            o.append('__CPROVER_ensures(!(OLD_NOZ%s) || NEW_NOZ(self))  /* no NUL stored => length is the C-string length */'
+                     % ''.join(' && ' + z for z in noz))
     else:
         o.append('__CPROVER_ensures(TIE(self))  /* observers leave the content unchanged */')
     if spec:
@@ -555,12 +558,12 @@ class Unit:
         raise Undecided('could not determine sizeof(FixedString<%d>) in the CBMC layout' % L)
 
 
-def make_build(unit, m, L, K, c11, methods, extra_req=()):
+def make_build(unit, m, L, K, c11, methods, extra_req=(), light=False):
     def build(job, wd):
         st = size_type(L)
         sz = unit.object_size(L, wd)
         key, wpath = unit.files(L, K, c11, methods)
-        ctext = (prelude_c(L, K) + '#define OBJSZ %dul\n' % sz + wrapper_decl(m) + '\n' + contract_text(m, L, K, c11, extra_req))
+        ctext = (prelude_c(L, K, light=light) + '#define OBJSZ %dul\n' % sz + wrapper_decl(m) + '\n' + contract_text(m, L, K, c11, extra_req, light=light))
         cname = '%s_%s%s.c' % (key, m.id, '_in' if any('/*in*/' in r for r in extra_req) else '')
         cpath = os.path.join(wd, cname)
         open(cpath, 'w').write(ctext)
